@@ -44,6 +44,10 @@ class Resolver(kernel.Actor):
     def __init__(self, ip):
         kernel.Actor.__init__(self, ip)
         self.got = []      # (time, src, data)
+        self.down = False  # the daemon is being restarted: nothing listens on its port (the host answers ICMP port unreachable)
+
+    def port_closed(self, port):
+        return self.down and port == BIND_PORT
 
     def on_datagram(self, src, dst, data):
         self.got.append((self.kernel.now, src, dst, data))
@@ -97,8 +101,46 @@ def scn(params):
         for step in range(params["nops"]):
             if not srv.alive() or k.stalled:
                 break
-            op = rng.choice(["ask"] * 5 + ["reply"] * 4 + ["unsolicited", "dupreply", "tunnel", "wait"])
+            op = rng.choice(["ask"] * 5 + ["reply"] * 4 + ["unsolicited", "dupreply", "tunnel", "wait"] + (["outage"] if params.get("outages") else []))
             mark = len(k.log)
+            if op == "outage":
+                # The local DNS server is restarted: for a moment nothing listens on its port, and the queries handed to it
+                # meanwhile (one to three, arriving together) are lost.  They were forwarded all the same - iodined cannot know -
+                # and once the daemon is back everything goes on as before.
+                res.down = True
+                burst = []
+                busy = rng.random() < 0.6
+                if busy:
+                    k.freeze("srv")      # iodined is busy (or not scheduled) for a moment: the burst is waiting when it gets back to select()
+                for _b in range(rng.randint(1, 3)):
+                    r = rng.choice(reqs)
+                    qid = rng.choice(ids)
+                    sport = rng.choice([53, 1024, 33333, 40000 + rng.randrange(50)])
+                    v6 = ":" in r.ip
+                    r.send(sport, (scen.SERVER_IP6 if v6 else scen.SERVER_IP, 53), proto.build_query(qid, rng.choice(NAMES), rng.choice(TYPES)))
+                    burst.append(((r.ip, sport), qid))
+                    if rng.random() < 0.3:
+                        k.run(k.now + rng.choice([10, 500]))
+                if busy:
+                    k.run(k.now + 1500)
+                    k.thaw("srv")
+                k.run(k.now + rng.choice([3000, 20000, 300000]))
+                res.down = False
+                out["stats"]["outages"] = out["stats"].get("outages", 0) + 1
+                recv_src = {ev[3]["id"]: ev[3]["src"] for ev in srv_events(mark) if ev[1] == "recv"}
+                for ev in srv_events(mark):
+                    if ev[1] == "send" and ev[3]["dst"] == ("127.0.0.1", BIND_PORT) and len(ev[3]["data"]) >= 2:
+                        asker = recv_src.get(ev[3].get("cause"))
+                        if asker is not None:
+                            fid = struct.unpack(">H", ev[3]["data"][:2])[0]
+                            window.append((asker, fid))
+                            attempts.append((asker, fid, True))
+                            out["stats"]["fwd_during_outage"] = out["stats"].get("fwd_during_outage", 0) + 1
+                for ev in srv_events(mark):
+                    if ev[1] == "send_error" and not ev[3].get("injected"):
+                        asker = recv_src.get(ev[3].get("cause"))
+                        attempts.append((asker, struct.unpack(">H", ev[3]["data"][:2])[0] if len(ev[3].get("data") or b"") >= 2 else 0, False))
+                continue
             if op == "ask":
                 r = rng.choice(reqs)
                 qid = rng.choice(ids)
@@ -277,7 +319,7 @@ def run(ctx):
     plist = [{"idx": i, "seed": ctx.seed * 100000 + i, "rseed": rng.getrandbits(32), "nops": rng.randint(60, 250),
               "idspace": rng.choice([3, 4, 6, 10, 20]), "nreq": rng.randint(2, 12), "v6": rng.random() < 0.3,
               "opt_c": rng.random() < 0.2, "p_sendfault": rng.choice([0, 0, 0, 0.05, 0.1, 0.3]), "stdin_closed": i % 5 == 2,
-              "flagbits": i % 3 == 1} for i in range(n)]
+              "flagbits": i % 3 == 1, "outages": i % 4 == 1} for i in range(n)]
     if ctx.replay and "params" in ctx.replay["witness"]:
         plist = [ctx.replay["witness"]["params"]]
     res.min_evaluations = 0 if ctx.replay else 100000
@@ -286,7 +328,12 @@ def run(ctx):
         if not ctx.replay:
             drv = b.unit("fwq", ["fwq.c"], objs=[], libs=())
             sh = ctx.jobs
-            unitrun.run_sharded(res, "C20", drv, sh, lambda i: [i, sh, ctx.pick(7, 8), ctx.pick(4, 5), ctx.seed, ctx.pick(2000, 400000)])
+            # shard number sh is the long history: 2^28 forwarded queries (quick; about 15 s beside the other shards) or
+            # 2^32 + 2^16 (thorough; every counter of up to 32 bits has wrapped by then, about 4 min)
+            nlong = ctx.pick(1 << 28, (1 << 32) + (1 << 16))
+            unitrun.run_sharded(res, "C20", drv, sh + 1, lambda i: (["long", nlong, ctx.seed] if i == sh else
+                                                                    [i, sh, ctx.pick(7, 8), ctx.pick(4, 5), ctx.seed, ctx.pick(2000, 400000)]),
+                                jobs=sh + 1, timeout=3000)
             res.exhaustive = None
         simrun.run_scenarios(res, b, scn, plist, jobs=ctx.jobs)
     simrun.finalize_sets(res)
